@@ -97,6 +97,19 @@ void state_touch(struct snapraid_state* state)
 					/* LCOV_EXCL_STOP */
 				}
 
+				/* if the file was changed after the last sync, leave it alone. */
+				/* It's going to be processed by the next sync, and setting here */
+				/* a new sub-second time-stamp in both the file and the content */
+				/* could make a modified file to look like unchanged, */
+				/* if it was modified in the same second and it has the same size */
+				if (st.st_size != file->size
+					|| st.st_mtime != file->mtime_sec
+					|| STAT_NSEC(&st) != 0
+				) {
+					close(f);
+					continue;
+				}
+
 				/* set the tweaked modification time, with new nano seconds */
 				ret = fmtime(f, st.st_mtime, nsec);
 				if (ret != 0) {
